@@ -221,6 +221,24 @@ def after_scan(ex, idx, op, obs, C, raw, pre_cache, pre_class):
         c06.check_entries(ex, idx, C)
 
 
+def after_read_faulted_scan(ex, idx, op, obs, C):
+    """The scan survived an injected EIO on reading a tree file.  It may have failed; having
+    succeeded, what it reports must still be exactly the qualifying files (no silent drop)."""
+    w = ex.world
+    if not isinstance(C, dict) or "codebase" not in C:
+        return
+    pats = current_patterns(w)
+    if any(O.model_pattern_class(p) is None for p in pats):
+        return
+    want = model_files(w)
+    got = C["codebase"]["files"]
+    if set(got) != set(want):
+        ex.add(violation("C11", "io_error_never_yields_partial_report",
+                         "scan ended ok after EIO on reading %s but reports %s instead of %s (missing: %s)" % (
+                             obs["fault_fired"]["path"], len(got), len(want), sorted(set(want) - set(got))), idx))
+    ex.probe("c11_read_fault_survived_checked")
+
+
 def check_c11(ex, idx, op, obs, C):
     w = ex.world
     pats = current_patterns(w)
